@@ -55,7 +55,10 @@ class _Sub(ast.NodeTransformer):
 
     def visit_Attribute(self, node):
         if isinstance(node.ctx, ast.Load) and isinstance(node.value, ast.Name) and node.value.id == 'self' and node.attr in self.fields:
-            return copy.deepcopy(self.fields[node.attr])
+            v = self.fields[node.attr]
+            if isinstance(v, ast.Call) and unparse(v.func).split('.')[-1][:1].isupper():
+                return node                        # an object constructed on this path: it is referred to through the field, not by its constructor call
+            return copy.deepcopy(v)
         if isinstance(node.ctx, ast.Load) and isinstance(node.value, ast.Name) and f'{node.value.id}.{node.attr}' in self.locs:
             return copy.deepcopy(self.locs[f'{node.value.id}.{node.attr}'])       # a field written on a local object earlier on the path
         return self.generic_visit(node)
@@ -101,8 +104,10 @@ class _Arith(ast.NodeTransformer):
 
 
 class PathSum:
-    def __init__(self, prog, cls, fn, env, enums=None, max_paths=64, assume_validated=True):
+    def __init__(self, prog, cls, fn, env, enums=None, max_paths=64, assume_validated=True, inline_self=False):
         self.prog, self.cls, self.fn, self.env, self.enums = prog, cls, fn, env, enums
+        self.inline_self = inline_self      # statement calls `self.m(..)` of loop-free methods of the same class are walked in place
+        self._depth = 0
         self.max_paths = max_paths
         self.assume_validated = assume_validated
         self.outcomes = []
@@ -168,6 +173,9 @@ class PathSum:
                 self._block(list(blk), dict(locs), dict(fields), list(calls), conds + [(txt, tag)], nxt)
             return
         if isinstance(st, ast.Return):
+            if getattr(self, '_ret_stack', None):
+                # return of a method walked in place: continue after the call in the caller
+                return self._ret_stack[-1](fields, calls, conds)
             self.outcomes.append(Outcome('return', fields, calls, conds, st, value=sub(st.value) if st.value is not None else None, locs=dict(locs), ret=st.value))
             return
         if isinstance(st, ast.Raise):
@@ -189,6 +197,34 @@ class PathSum:
             val = ast.copy_location(ast.BinOp(left=cur, op=st.op, right=sub(st.value)), st)
             self._bind(st.target, val, locs, fields)
             return nxt(locs, fields, calls, conds)
+        if isinstance(st, ast.Expr) and self.inline_self and isinstance(st.value, ast.Call) and isinstance(st.value.func, ast.Attribute) \
+                and isinstance(st.value.func.value, ast.Name) and st.value.func.value.id == 'self' and self._depth < 3:
+            callee = self.prog.method(self.cls, st.value.func.attr) if hasattr(self.prog, 'method') else None
+            if callee is not None and not any(isinstance(x, (ast.While, ast.For, ast.Try, ast.With)) for x in ast.walk(callee)) \
+                    and not st.value.keywords and len(callee.args.args) - 1 == len(st.value.args):
+                args = [sub(a) for a in st.value.args]
+                clocs = {p.arg: a for p, a in zip(callee.args.args[1:], args)}
+                body = [s_ for s_ in callee.body if not (isinstance(s_, ast.Expr) and isinstance(s_.value, ast.Constant))]
+                stack = getattr(self, '_ret_stack', None)
+                if stack is None:
+                    stack = self._ret_stack = []
+
+                def after(f_, c_, k_, locs=locs):
+                    stack.pop()
+                    self._depth -= 1
+                    try:
+                        return self._block(rest, dict(locs), f_, c_, k_, k)
+                    finally:
+                        self._depth += 1
+                        stack.append(after)
+                stack.append(after)
+                self._depth += 1
+                try:
+                    return self._block(body, clocs, fields, calls, conds, lambda l, f_, c_, k_: after(f_, c_, k_))
+                finally:
+                    self._depth -= 1
+                    if stack and stack[-1] is after:
+                        stack.pop()
         if isinstance(st, ast.Expr):
             v = sub(st.value)
             new = [c for c in ast.walk(v) if isinstance(c, ast.Call) and self._effectful(c)]
